@@ -235,14 +235,19 @@ def _cubic_extrema(p0, c1, c2, p1):
     b = 2 * (p0 - 2 * c1 + c2)
     c = -p0 + c1
     ts = []
-    if abs(a) < 1e-14:
+    # derivative a t^2 + b t + c: the cancellation-free form of the quadratic formula (a symmetric arc has a ~ 1e-13, where
+    # (-b + sqrt(disc)) / 2a loses every digit and the extremum was missed)
+    if abs(a) <= 1e-12 * max(abs(b), abs(c), 1e-300):
         if b != 0:
             ts.append(-c / b)
     else:
         disc = b * b - 4 * a * c
         if disc >= 0:
-            s = math.sqrt(disc)
-            ts += [(-b + s) / (2 * a), (-b - s) / (2 * a)]
+            q = -0.5 * (b + math.copysign(math.sqrt(disc), b))
+            if q != 0:
+                ts += [q / a, c / q]
+            else:
+                ts.append(0.0)
     return [t for t in ts if 0 < t < 1]
 
 
